@@ -302,7 +302,13 @@ func (p *parser) parsePermissionExpressions(finalToken itemType, depth int) *ast
 			expressionNestingMaxDepth)
 		return nil
 	}
-	var root *ast.SubjectSetRewrite
+	// The operands and the binary operators between them, in source order. The
+	// tree is built when the expression ends, so that "&&" binds tighter than
+	// "||" as it does in TypeScript.
+	var (
+		operands  []ast.Child
+		operators []itemType
+	)
 
 	// We only expect an expression in the beginning and after a binary
 	// operator.
@@ -320,31 +326,27 @@ func (p *parser) parsePermissionExpressions(finalToken itemType, depth int) *ast
 			if child == nil {
 				return nil
 			}
-			root = addChild(root, child)
+			operands = append(operands, child)
 			expectExpression = false
 
 		case item.Typ == finalToken:
 			p.next() // consume final token
-			return root
+			return buildExpression(operands, operators)
 
 		case item.Typ == itemBraceRight:
 			// We don't consume the '}' here, to allow `parsePermits` to consume
 			// it.
-			return root
+			return buildExpression(operands, operators)
 
 		case item.Typ == itemOperatorAnd, item.Typ == itemOperatorOr:
 			p.next() // consume operator
 
-			// A nil root means that we saw a binary expression before the first
-			// expression.
-			if root == nil {
+			// No operands means that we saw a binary expression before the
+			// first expression.
+			if len(operands) == 0 {
 				return nil
 			}
-			newRoot := &ast.SubjectSetRewrite{
-				Operation: setOperation(item.Typ),
-				Children:  []ast.Child{root},
-			}
-			root = newRoot
+			operators = append(operators, item.Typ)
 			expectExpression = true
 
 		// A "not" creates an AST node where the children are either a
@@ -355,7 +357,7 @@ func (p *parser) parsePermissionExpressions(finalToken itemType, depth int) *ast
 			if child == nil {
 				return nil
 			}
-			root = addChild(root, child)
+			operands = append(operands, child)
 			expectExpression = false
 
 		default:
@@ -369,11 +371,50 @@ func (p *parser) parsePermissionExpressions(finalToken itemType, depth int) *ast
 			if child == nil {
 				return nil
 			}
-			root = addChild(root, child)
+			operands = append(operands, child)
 			expectExpression = true
 		}
 	}
 	return nil
+}
+
+// buildExpression combines the operands with the binary operators between them.
+// "&&" binds tighter than "||".
+func buildExpression(operands []ast.Child, operators []itemType) *ast.SubjectSetRewrite {
+	if len(operands) == 0 {
+		return nil
+	}
+	var root *ast.SubjectSetRewrite
+	// addGroup adds a run of operands joined by "&&" as one operand of the "||".
+	addGroup := func(group []ast.Child) {
+		var child ast.Child = group[0]
+		if len(group) > 1 {
+			group[0] = group[0].AsRewrite()
+			child = &ast.SubjectSetRewrite{Operation: ast.OperatorAnd, Children: group}
+		}
+		if root == nil {
+			root = child.AsRewrite()
+		} else {
+			if root.Operation != ast.OperatorOr || len(root.Children) < 2 {
+				root = &ast.SubjectSetRewrite{Operation: ast.OperatorOr, Children: []ast.Child{root}}
+			}
+			root.Children = append(root.Children, child)
+		}
+	}
+	group := []ast.Child{operands[0]}
+	for i, op := range operators {
+		if i+1 >= len(operands) {
+			break
+		}
+		if op == itemOperatorAnd {
+			group = append(group, operands[i+1])
+		} else {
+			addGroup(group)
+			group = []ast.Child{operands[i+1]}
+		}
+	}
+	addGroup(group)
+	return root
 }
 
 func (p *parser) parseNotExpression(depth int) ast.Child {
@@ -395,25 +436,6 @@ func (p *parser) parseNotExpression(depth int) ast.Child {
 		return nil
 	}
 	return &ast.InvertResult{Child: child}
-}
-
-func addChild(root *ast.SubjectSetRewrite, child ast.Child) *ast.SubjectSetRewrite {
-	if root == nil {
-		return child.AsRewrite()
-	} else {
-		root.Children = append(root.Children, child)
-		return root
-	}
-}
-
-func setOperation(typ itemType) ast.Operator {
-	switch typ {
-	case itemOperatorAnd:
-		return ast.OperatorAnd
-	case itemOperatorOr:
-		return ast.OperatorOr
-	}
-	panic("not reached")
 }
 
 func (p *parser) matchPropertyAccess(propertyName any) bool {
